@@ -60,7 +60,8 @@
   What is still NOT proved (validated per instance by the correspondence, see manifest.d/C20.json):
     * the other multi-photon catalog matrices (KLM CNOT — algebraic but not done —, post-processed CCZ, Toffoli, the
       n-qubit controlled rotations for all angles, optimiser-fitted one-qubit gates);
-    * the `PERM` of a SWAP as a step (its `Step.Ok` is a hypothesis of `converted_circuit_implements_product`).
+    * (closed in round 5, section "(9)": the `PERM` of a SWAP is an admissible heralded step with table `1 • SWAP`
+      anywhere in a processor, `swap_anywhere`, `converter_swap_is_placement`).
 -/
 import PercevalModel.Lemmas.C20
 import PercevalModel.Lemmas.C20Gates
@@ -71,6 +72,7 @@ import PercevalModel.Lemmas.C20HeraldedCz
 import PercevalModel.Lemmas.C20Dfs
 import PercevalModel.Lemmas.C20Catalog
 import PercevalModel.Lemmas.C20LabelCut
+import PercevalModel.Lemmas.C20Swap
 import Mathlib.Analysis.Real.Sqrt
 import Mathlib.Data.Complex.Basic
 
@@ -1085,5 +1087,44 @@ example : let gs : List Gate := [⟨"cx", [0, 1]⟩, ⟨"h", [2]⟩, ⟨"cx", [1
     labelCnots true gs = ["heralded cnot", "h", "postprocessed cnot", "cz", "postprocessed cnot", "swap"] ∧
     cutCheck (convShape true gs (labelCnots true gs)) = true := by
   decide +kernel
+
+/-! ### (9) the SWAP the converter places (`Lemmas/C20Swap.lean`) -/
+
+/-- **the SWAP exactly**: on its own four modes the `PERM([2, 3, 0, 1])` has the logical table `1 • SWAP` -/
+theorem swap_gate_exact [CommRing R] (bo bi : List Bool) (hbo : bo.length = 2) (hbi : bi.length = 2) :
+    gateAmp (swapMatrix (R := R)) swapLayout PS.tt bo bi = 1 * twoQubit swapEntry bo bi :=
+  swap_amp_tt bo bi hbo hbi
+
+/-- the SWAP never sends a logical state outside the logical space -/
+theorem swap_gate_no_leak [CommRing R] : NoLeak swapLayout (swapMatrix (R := R)) := swap_noLeak
+
+/-- **the SWAP placed on any two qubits of any processor is an admissible heralded step** — the `Step.Ok` that
+`converted_circuit_implements_product` took as a hypothesis for SWAPs is now a theorem: `ConvGate.other` of this
+step is `Good` -/
+theorem swap_anywhere [Field R] [CharZero R] {L : Layout} (P : Placement swapLayout L) (hok : L.ok = true)
+    (hh : ∀ p ∈ L.heralds, p.2 ≤ 1) :
+    (ConvGate.other (placedStep P (swapMatrix (R := R)) (twoQubit swapEntry) 1 false)).Good :=
+  ⟨swap_step_ok P hok hh, rfl⟩
+
+/-- **the converter's SWAP**: for every qubit count and every two distinct qubits there is a placement of the
+four-mode SWAP whose modes are the four rails of the two qubits, and its matrix on ALL the modes of the processor
+is the permutation matrix of `swapPairs a b` — which by `swap_perm_spec` is where the `PERM` the converter adds at
+offset `2·min a b` sends every mode -/
+theorem converter_swap_is_placement [Zero R] [One R] (n : ℕ) (hv : List ℕ) (a b : ℕ) (ha : a < n) (hb : b < n)
+    (hab : a ≠ b) :
+    ∃ P : Placement swapLayout (convLayout n hv),
+      (List.ofFn fun k : Fin 4 => (P.f k).val) = [2 * a, 2 * a + 1, 2 * b, 2 * b + 1] ∧ P.sel = [a, b] ∧
+      (∀ i j, PM.place P.g (swapMatrix (R := R)) i j = if swapPairs a b j.val = i.val then 1 else 0) ∧
+      ∃ perm, swapPerm (2 * a) (2 * b) = some (2 * min a b, perm) ∧
+        ∀ j, permTarget (2 * min a b) perm j = swapPairs a b j := by
+  obtain ⟨perm, h1, _, h3⟩ := swap_perm_spec a b hab
+  refine ⟨swapPlacement n hv a b ha hb hab, ?_, rfl, swapPlacement_matrix n hv a b ha hb hab, perm, h1, h3⟩
+  simp [Placement.f, swapPlacement, List.ofFn_succ]
+
+-- non-vacuity: the SWAP of qubits 2 and 0 of a three-qubit processor with one catalog gate's heralds
+example : ∃ P : Placement swapLayout (convLayout 3 [1, 1]),
+    (List.ofFn fun k : Fin 4 => (P.f k).val) = [4, 5, 0, 1] :=
+  ⟨swapPlacement 3 [1, 1] 2 0 (by decide) (by decide) (by decide), by
+    simp [Placement.f, swapPlacement, List.ofFn_succ]⟩
 
 end PM.C20
